@@ -46,7 +46,8 @@ def build(kind, odl, np, X, f, g, rng):
     if kind == 'quadpert':
         return S_.FunctionalQuadraticPerturb(f, quadratic_coeff=1.5, linear_term=u, constant=0.3), lambda x: f(x) + 1.5 * x.inner(x) + x.inner(u) + 0.3
     if kind == 'quadpert_nolin':
-        return S_.FunctionalQuadraticPerturb(f, quadratic_coeff=0.8), lambda x: f(x) + 0.8 * x.inner(x)
+        c = -3.0 if isinstance(g, S_.Huber) else 0.8          # also a NEGATIVE quadratic coefficient (the Lipschitz bound needs its absolute value)
+        return S_.FunctionalQuadraticPerturb(f, quadratic_coeff=c), lambda x: f(x) + c * x.inner(x)
     if kind == 'product':
         return S_.FunctionalProduct(f, g), lambda x: f(x) * g(x)
     if kind == 'quotient':
